@@ -456,7 +456,7 @@ func init() {
 			return jobs
 		},
 		MinCases:    map[string]int{"quick": 4, "thorough": 8},
-		Assumptions: []string{"halving age taken from the exported GetRewardAge and required to be non-decreasing"}})
+		Assumptions: []string{"the halving age is recomputed in integers, floor(log2(total / not yet minted)), compared with the chain's own and required to be non-decreasing"}})
 	check.RegisterSpec(&check.Spec{Prop: "C11", Level: "exploration",
 		Rule: lifeRule + "Plus recipes: cancel / timeout / terminate (completed and in flight) followed by re-creation of the same data id and advance across the old and new scheduled heights. The monitor builds the reference timetable from accepted requests and checks existence, provider, capacity accounting, model presence and release at every block boundary. A case is a release class (renewals, migrated, term bucket), an early ending (terminate, force-push), a migration hand-over or a re-creation mode; distinct_nontrivial counts distinct cases.",
 		Jobs: withExtra(lifeJobs("C11", 5, 64, nil), func(tier string, seed int64) []check.Job {
